@@ -118,7 +118,42 @@ def gen_burst(rng, cid):
     return dict(id=cid, minage_ms=0, count=count, hasfn=True, events=evs, burst=True)
 
 
+def gen_window(rng, cid):
+    """a Get that arrives while a prune (by age or by count) is cleaning up that very entry: it either finds nothing (the entry
+    goes) or finds the entry - and then the entry, used a moment ago, stays"""
+    keys = ["w0", "w1", "w2", "w3"]
+    by_age = rng.random() < 0.6
+    count = 0 if by_age else rng.choice([1, 2])
+    evs, v = [], 0
+    n = rng.randrange(1, 4) if by_age else count + rng.randrange(1, 3)
+    for k in keys[:n]:
+        v += 1
+        evs.append(dict(op="set_nw" if not by_age else "set", k=k, v=v, age_ms=0, fails=list(keys) if not by_age else []))
+        evs.append(dict(op="get", k=k, age_ms=(2 * 3600000 + v * MIN) if by_age else (n - v + 1) * 5 * MIN))
+    if not by_age:
+        evs.append(dict(op="quiesce"))
+    target = keys[0] if not by_age else rng.choice(keys[:n])
+    evs.append(dict(op="prune_age_get" if by_age else "prune_count_get", k=target, fails=[]))
+    evs.append(dict(op="quiesce"))
+    return dict(id=cid, minage_ms=3600000 if by_age else 0, count=count, hasfn=True, events=evs, burst=True, window=True)
+
+
+def oracle_window(ctx, case, out):
+    rep = dict(case=case, result=out["events"])
+    for ev, r in zip(case["events"], out["events"]):
+        if r.get("panic"):
+            ctx.violation("cache: %s" % r["panic"], rep, "C20:panic")
+            return
+        if ev["op"] in ("prune_age_get", "prune_count_get") and r.get("val") is not None:
+            final = set(out["events"][-1]["keys"])
+            if ev["k"] not in final:
+                ctx.violation("entry %s was returned by a Get that arrived while the %s prune was cleaning it up, and was removed all the same: an entry used a moment ago was expired"
+                              % (ev["k"], "age" if ev["op"] == "prune_age_get" else "count"), rep, "C20:used-entry-expired")
+
+
 def oracle_burst(ctx, case, out):
+    if case.get("window"):
+        return oracle_window(ctx, case, out)
     stored, okcalls = {}, set()
     bound_keys = None
     rep = dict(case=case, result=out["events"][-1])
@@ -275,6 +310,8 @@ def run(ctx):
     if not ctx.replay:
         for i in range(300 if ctx.tier == "quick" else 6000):
             bursts.append(gen_burst(ctx.rng, 10000000 + i))
+        for i in range(40 if ctx.tier == "quick" else 800):
+            bursts.append(gen_window(ctx.rng, 20000000 + i))
     elif cases[0].get("burst"):
         bursts, cases = cases, []
     cf, of = os.path.join(ctx.work, "cache.cases.jsonl"), os.path.join(ctx.work, "cache.out.jsonl")
